@@ -19,7 +19,7 @@ import (
 // registered for its UID and is listed there; a record that is not registered has no live session.
 
 type c17rOp struct {
-	K   string // connect connect|| upload-fails lateclose peerclose terminate upload exhaust topup connect+close
+	K   string // connect connect|| upload-fails lateclose peerclose terminate upload exhaust topup connect+close connect+upload
 	U   int
 	Sid uint32
 	I   int
@@ -111,7 +111,23 @@ func c17rRun(sc c17rCase) (vk.Result, error) {
 	for i, op := range sc.Ops {
 		phase := fmt.Sprintf("after op %d (%s)", i, op.K)
 		switch op.K {
-		case "connect", "connect+close":
+		case "connect", "connect+close", "connect+upload":
+			if op.K == "connect+upload" {
+				// while this admission's authorisation query runs (the user's record is busy admitting), an upload round
+				// comes by
+				fm.mu.Lock()
+				fm.onAuthorise = func() {
+					go func() {
+						panel.updateUsageQueue()
+						panel.commitUpdate()
+					}()
+					for k := 0; k < 300; k++ {
+						runtime.Gosched()
+					}
+				}
+				fm.mu.Unlock()
+				duringAuth = true
+			}
 			if op.K == "connect+close" && len(sess) > 0 {
 				// while this admission's authorisation query runs, the goroutine serving another session reports its end
 				s := sess[op.I%len(sess)]
@@ -126,7 +142,7 @@ func c17rRun(sc c17rCase) (vk.Result, error) {
 				duringAuth = true
 			}
 			u := op.U % sc.Users
-			if err := connect(u, op.Sid, phase, op.K == "connect+close"); err != nil {
+			if err := connect(u, op.Sid, phase, op.K != "connect"); err != nil {
 				return res, err
 			}
 		case "connect||":
@@ -242,8 +258,10 @@ func TestVerif_C17_Records(t *testing.T) {
 				op.K = "connect"
 			case k < 25:
 				op.K = "connect||"
-			case k < 35:
+			case k < 31:
 				op.K = "connect+close"
+			case k < 35:
+				op.K = "connect+upload"
 			case k < 55:
 				op.K = "lateclose"
 			case k < 65:
